@@ -26,6 +26,7 @@ type Env struct {
 	specDepth  int
 	typeFn     *ssa.Function
 	callArgs   []Val
+	extraFr    *FrameSt
 }
 
 func (e *Engine) envFor(st *State, fr *FrameSt, old *State) *Env {
@@ -185,7 +186,17 @@ func (e *Engine) constOf(o *types.Const) Val {
 }
 
 func (env *Env) localVar(name string, onlyScoped bool) (Val, bool) {
-	fr := env.fr
+	if v, ok := env.localVarIn(env.fr, name, onlyScoped); ok {
+		return v, true
+	}
+	if env.extraFr != nil && env.extraFr != env.fr {
+		// the inlined callee whose loop/anchor is being specified
+		return env.localVarIn(env.extraFr, name, onlyScoped)
+	}
+	return Val{}, false
+}
+
+func (env *Env) localVarIn(fr *FrameSt, name string, onlyScoped bool) (Val, bool) {
 	// disambiguation suffix name#k
 	want := 1
 	base := name
@@ -317,6 +328,19 @@ func (env *Env) unify(a, b Val) (Val, Val) {
 	}
 	if b.K == kConst {
 		return a, env.coerceTo(b, a.Typ)
+	}
+	// comparing an interface value with a concrete pointer: box the pointer
+	if a.K == kTerm && b.K == kTerm && a.Typ != nil && b.Typ != nil {
+		_, ai := a.Typ.Underlying().(*types.Interface)
+		_, bi := b.Typ.Underlying().(*types.Interface)
+		_, ap := a.Typ.Underlying().(*types.Pointer)
+		_, bp := b.Typ.Underlying().(*types.Pointer)
+		if ai && bp {
+			return a, e.makeInterface(env.st, b, b.Typ, a.Typ)
+		}
+		if bi && ap {
+			return e.makeInterface(env.st, a, a.Typ, b.Typ), b
+		}
 	}
 	return a, b
 }
